@@ -2,28 +2,28 @@ from driver import Leg
 
 # the same workload under both sanitizers; case k of both legs has the same seed, pools, thread count and delay placement
 _MIN = {
-    'cases_hot': 240, 'cases_mixed': 240, 'single_threaded_histories': 540, 'single_threaded_operations': 90000,
+    'cases_hot': 120, 'cases_mixed': 120, 'single_threaded_histories': 280, 'single_threaded_operations': 48000,
     # every hook site must have been reached, and a delay must really have been injected at each of them in many cases
-    'hook_hits_refcount_hit_zero': 240000, 'hook_hits_pool_release_after_reset': 180000,
-    'hook_hits_pool_release_after_unlock': 180000, 'hook_hits_pool_obtain_after_unlock': 180000,
-    'hook_delays_refcount_hit_zero': 12000, 'hook_delays_pool_release_after_reset': 9000,
-    'hook_delays_pool_release_after_unlock': 9000, 'hook_delays_pool_obtain_after_unlock': 9000,
-    'cases_with_delay_at_refcount_hit_zero': 120, 'cases_with_delay_at_pool_release_after_reset': 120,
-    'cases_with_delay_at_pool_release_after_unlock': 120, 'cases_with_delay_at_pool_obtain_after_unlock': 120,
+    'hook_hits_refcount_hit_zero': 120000, 'hook_hits_pool_release_after_reset': 96000,
+    'hook_hits_pool_release_after_unlock': 96000, 'hook_hits_pool_obtain_after_unlock': 96000,
+    'hook_delays_refcount_hit_zero': 6400, 'hook_delays_pool_release_after_reset': 4800,
+    'hook_delays_pool_release_after_unlock': 4800, 'hook_delays_pool_obtain_after_unlock': 4800,
+    'cases_with_delay_at_refcount_hit_zero': 64, 'cases_with_delay_at_pool_release_after_reset': 64,
+    'cases_with_delay_at_pool_release_after_unlock': 64, 'cases_with_delay_at_pool_obtain_after_unlock': 64,
     # 36 single placements (site x role x kind) round-robin: 9 per site in every 40 cases
-    'placement_cases_refcount_hit_zero': 120, 'placement_cases_pool_release_after_reset': 120,
-    'placement_cases_pool_release_after_unlock': 120, 'placement_cases_pool_obtain_after_unlock': 120,
-    'cases_jitter_only': 24, 'cases_without_delay': 12, 'cases_with_placement_pair': 6, 'cases_with_placement_triple': 3,
-    'distinct_order_signatures': 480,
+    'placement_cases_refcount_hit_zero': 64, 'placement_cases_pool_release_after_reset': 64,
+    'placement_cases_pool_release_after_unlock': 64, 'placement_cases_pool_obtain_after_unlock': 64,
+    'cases_jitter_only': 12, 'cases_without_delay': 6, 'cases_with_placement_pair': 3, 'cases_with_placement_triple': 1,
+    'distinct_order_signatures': 250,
     # what the workload must have reached
-    'pool_recycles': 180000, 'heap_objects_deleted': 60000, 'pooled_objects_destroyed_by_slab_deletion': 18000,
-    'last_drop_on_other_thread_than_creator': 18000, 'nested_releases': 9000, 'monitored_dereferences': 3600000,
-    'dereferences_through_noncounting_ref': 360000, 'reference_drops': 4800000, 'exact_audits': 90000,
-    'op_mailbox_take': 600000, 'op_mailbox_put': 480000, 'op_assign': 3000000, 'op_copy_construct': 1200000, 'op_reset': 360000, 'op_swap': 720000,
-    'op_to_constref': 120000, 'op_cast_away_const': 180000, 'op_setref_counting_off': 120000, 'op_setref_counting_on': 72000,
-    'op_neutralize': 120000, 'op_neutralize_sole_owner': 1800, 'op_move': 90000, 'op_dummyref': 90000, 'op_refcountableref_roundtrip': 90000,
-    'op_setref_raw_pointer': 60000, 'op_clone_pooled': 18000, 'op_clone_heap': 6000, 'op_ensure_private': 1800, 'op_status': 24000,
-    'op_sanity_check_concurrent': 24000, 'op_drain_concurrent': 9000,
+    'pool_recycles': 96000, 'heap_objects_deleted': 32000, 'pooled_objects_destroyed_by_slab_deletion': 9600,
+    'last_drop_on_other_thread_than_creator': 9600, 'nested_releases': 4800, 'monitored_dereferences': 1900000,
+    'dereferences_through_noncounting_ref': 190000, 'reference_drops': 2500000, 'exact_audits': 48000,
+    'op_mailbox_take': 320000, 'op_mailbox_put': 250000, 'op_assign': 1600000, 'op_copy_construct': 640000, 'op_reset': 190000, 'op_swap': 380000,
+    'op_to_constref': 64000, 'op_cast_away_const': 96000, 'op_setref_counting_off': 64000, 'op_setref_counting_on': 38000,
+    'op_neutralize': 64000, 'op_neutralize_sole_owner': 960, 'op_move': 48000, 'op_dummyref': 48000, 'op_refcountableref_roundtrip': 48000,
+    'op_setref_raw_pointer': 32000, 'op_clone_pooled': 9600, 'op_clone_heap': 3200, 'op_ensure_private': 960, 'op_status': 12000,
+    'op_sanity_check_concurrent': 12000, 'op_drain_concurrent': 4800,
 }
 
 SPEC = dict(
@@ -48,8 +48,8 @@ SPEC = dict(
                  'by the driver (all threads blocked without timeout / CPU budget)'],
     legs=[
         Leg('regress', 'h_refpool', 'asan', opts={'mode': 'regress'}, quick=1, thorough=1, workers=1, leaks=True, min_cases=1),
-        Leg('asan', 'h_refpool', 'asan', opts={'mode': 'run'}, quick=600, thorough=30000, workers=8, per_worker_min=8),
-        Leg('tsan', 'h_refpool', 'tsan', opts={'mode': 'run'}, quick=600, thorough=30000, workers=8, per_worker_min=8),
+        Leg('asan', 'h_refpool', 'asan', opts={'mode': 'run'}, quick=320, thorough=24000, workers=8, per_worker_min=8),
+        Leg('tsan', 'h_refpool', 'tsan', opts={'mode': 'run'}, quick=320, thorough=24000, workers=8, per_worker_min=8),
     ],
     min_stats={'asan': _MIN, 'tsan': _MIN},
 )
